@@ -1138,3 +1138,84 @@ func c18ByNameLookups(p *Prog, t *Tables, r *Report) {
 	}
 	r.Stat("T6.reflective look-ups by field name", n)
 }
+
+// c18FilterValuesUsed: filters are built as values (filter = addSelectorToFilter(filter, …)); a value computed after
+// the filter was already appended to the list is dead — the command goes out without that selector or those elements.
+// Every call in package spine that returns a model.FilterType value reaches an append to a filter list or a return.
+func c18FilterValuesUsed(p *Prog, r *Report, rule string) {
+	r.Rule(rule, "every filter value a builder computes ends up in the filter list: the result of each call returning a model.FilterType flows into an append to a []model.FilterType or into the function's result (a filter appended before its selector or elements are added goes out without them)")
+	n := 0
+	for _, fn := range p.RepoFns("spine") {
+		if fn.Blocks == nil {
+			continue
+		}
+		idx := 0
+		forEachCallOwn(fn, func(site ssa.CallInstruction) {
+			c, ok := site.(*ssa.Call)
+			if !ok || !isNamed(c.Type(), "model", "FilterType") {
+				return
+			}
+			if _, isPtr := c.Type().Underlying().(*types.Pointer); isPtr {
+				return
+			}
+			idx++
+			n++
+			// the value may live in a local cell (a struct built by a composite literal is not lifted to a register):
+			// only reads of the cell that come after the assignment carry this value
+			var seeds []ssa.Value
+			direct := true
+			if c.Referrers() != nil {
+				for _, ref := range *c.Referrers() {
+					st, isSt := ref.(*ssa.Store)
+					if !isSt || st.Val != ssa.Value(c) {
+						continue
+					}
+					al, isAl := st.Addr.(*ssa.Alloc)
+					if !isAl || al.Referrers() == nil {
+						continue
+					}
+					direct = false
+					for _, r2 := range *al.Referrers() {
+						ld, isLd := r2.(*ssa.UnOp)
+						if !isLd || ld.Op != token.MUL {
+							continue
+						}
+						after := false
+						if ld.Block() == st.Block() {
+							after = instrIndex(ld) > instrIndex(st)
+						} else {
+							after = blockReaches(st.Block(), ld.Block())
+						}
+						if after {
+							seeds = append(seeds, ld)
+						}
+					}
+				}
+			}
+			if direct {
+				seeds = []ssa.Value{c}
+			}
+			t := forwardTaint(seeds...)
+			used := false
+			for v := range t {
+				switch x := v.(type) {
+				case *ssa.Call:
+					if builtinName(&x.Call) == "append" {
+						used = true
+					}
+				}
+			}
+			for _, b := range fn.Blocks {
+				if ret, isRet := b.Instrs[len(b.Instrs)-1].(*ssa.Return); isRet {
+					for _, res := range ret.Results {
+						if t[res] {
+							used = true
+						}
+					}
+				}
+			}
+			r.Check(rule, fmt.Sprintf("%s|filter-value#%d", FnName(fn), idx), used, p.InstrPos(c), "the filter value computed by "+Path(c)+" reaches the filter list or the result")
+		})
+	}
+	r.Floor(rule, "calls returning a filter value", n, 4)
+}
